@@ -59,7 +59,7 @@ pub enum DeclKind {
     /// (specialised) module is evaluated with — the override of its instance
     Param,
     Const,
-    /// loop variable of a `for` (always `u32`)
+    /// loop variable of a `for` (emitted as `int`: 32-bit signed)
     LoopVar,
     /// function argument (input)
     FnArg,
@@ -500,7 +500,7 @@ pub enum Stmt {
         arms: Vec<(Vec<Expr>, Vec<Stmt>)>,
         default: Option<Vec<Stmt>>,
     },
-    /// `for i: u32 in lo..hi { … }` (`rev` adds the keyword `rev`; `incl` = `..=`; step ≥ 1)
+    /// `for i in lo..hi { … }` (`rev` adds the keyword `rev`; `incl` = `..=`; step ≥ 1, `rev` only with step 1)
     For {
         var: DeclId,
         lo: u32,
